@@ -36,7 +36,7 @@ def _pool(T):
         M=T.arr("M", (2, 2), dt), N=T.arr("N", (2, 2), dt), d=T.arr("d", (2, ), dt, positive=True), x=T.arr("x", (2, ), dt), X=T.arr("X", (2, 2), dt),
         x0=T.arr("x0", (2, ), dt), v=T.arr("v", (2, ), dt), al=T.arr("al", (1, ), dt), be=T.arr("be", (2, ), dt), ga=T.arr("ga", (1, ), dt),
         hv=T.arr("hv", (2, 1), dt), Bp=T.arr("Bp", (2, 2), dt), x4=T.arr("x4", (4, ), dt))
-    arrs["idx"] = np.array([1, 0])
+    arrs["idx"] = np.array([-1, 0])
     arrs["perm"] = np.array([1, 0])
     # positive definite payload L L^T (L lower triangular with positive diagonal)
     Lp = arrs["Bp"].copy()
@@ -83,7 +83,8 @@ ALPHABET = ["sum_id_first@x", "sum_id_first@X", "sum@x", "x@sum", "dense@x", "x@
             "perm@X", "dense.T@x", "dense.H@x", "sum.T@x", "to_dense:kron", "to_dense:sliced", "psd+dense", "2*dense", "dense/2", "-sum", "dense@dense2", "PSD(dense)",
             "dense[0]", "dense[idx,:]", "dense[:,1]", "inv(dense)@x", "inv(psd)@x", "inv(tri)@x", "solve(diag,x)", "x@inv(dense)", "diag(sum)", "trace(kron)",
             "cg(psd,x,x0)", "cg(psd,X)", "inv(psd,CG(x0))@X", "lanczos(psd,v)", "arnoldi(dense,v)", "exp(diag)@x", "sqrt(psd)@x", "cholesky(psd)", "plu(dense)",
-            "stf.T@x", "stf.H@x", "x@stf", "uni.H@x", "inv(uni)@x", "T(kron(stf,psd))"]
+            "stf.T@x", "stf.H@x", "x@stf", "uni.H@x", "inv(uni)@x", "T(kron(stf,psd))",
+            "logdet(diag)", "slogdet(tri)", "logdet(psd)", "logdet(kron)", "eig(diag)", "pinv(diag)@x", "diag(diag)"]
 
 
 def _apply(T, name, arrs, O):
@@ -108,6 +109,9 @@ def _apply(T, name, arrs, O):
         "lanczos(psd,v)": lambda: _lan(O["psdc"], arrs["vc"]), "arnoldi(dense,v)": lambda: _arn(O["dense"], arrs["vc"]),
         "exp(diag)@x": lambda: _un().exp(O["diag"]) @ x, "sqrt(psd)@x": lambda: _un().sqrt(O["diag"]) @ x, "cholesky(psd)": lambda: _dec().cholesky(O["diag"]).to_dense(),
         "plu(dense)": lambda: _dec().plu(O["diag"])[2].to_dense(),
+        "logdet(diag)": lambda: cola.linalg.logdet(O["diag"]), "slogdet(tri)": lambda: cola.linalg.slogdet(O["tri"])[1], "logdet(psd)": lambda: cola.linalg.logdet(O["psdc"]),
+        "logdet(kron)": lambda: cola.linalg.logdet(ops.Kronecker(O["diag"], O["psdc"])), "eig(diag)": lambda: cola.linalg.eig(O["psdc"], 2, "LM")[0],
+        "pinv(diag)@x": lambda: cola.linalg.pinv(O["diag"]) @ x, "diag(diag)": lambda: cola.linalg.diag(O["diag"]),
         "stf.T@x": lambda: O["stf"].T @ x, "stf.H@x": lambda: O["stf"].H @ x, "x@stf": lambda: x @ O["stf"], "uni.H@x": lambda: O["uni"].H @ x,
         "inv(uni)@x": lambda: cola.linalg.inv(O["uni"]) @ x, "T(kron(stf,psd))": lambda: ops.Kronecker(O["stf"], O["psd"]).T @ x4,
     }
@@ -174,6 +178,69 @@ def case_sequence(T, seq):
         T.check(f"operator {k}: same annotations / shape / dtype", frozenset(a.__name__ for a in A.annotations) == ann0 and tuple(A.shape) == shp0 and str(A.dtype) == dt0)
     again = _apply(T, seq[0], arrs, O)
     T.eq(f"repeating {seq[0]} gives the same result", again, first, dtype=False)
+
+
+# ---- (a') algorithm objects are inputs too -----------------------------------------------------
+def _alg_scenarios():
+    import importlib
+    from cola.linalg.decompositions.decompositions import Arnoldi, Lanczos
+    E_ = importlib.import_module("cola.linalg.eig.eigs")
+    U_ = importlib.import_module("cola.linalg.unary.unary")
+    S_ = importlib.import_module("cola.linalg.svd.svd")
+    P_ = importlib.import_module("cola.linalg.inverse.pinv")
+    D_ = importlib.import_module("cola.linalg.trace.diag_trace")
+    L_ = cola.linalg
+    psd = lambda M: cola.PSD(ops.Dense(M @ M.T + len(M) * np.eye(len(M))))  # noqa
+    gen = lambda M: ops.Dense(M + len(M) * np.eye(len(M)))  # noqa
+    return {
+        "eig(Arnoldi)": (lambda: Arnoldi(max_iters=50), gen, lambda A, alg: np.sort_complex(np.asarray(E_.eig(A, A.shape[0], "LM", alg)[0]))),
+        "eig(Lanczos)": (lambda: Lanczos(max_iters=50), psd, lambda A, alg: np.sort(np.asarray(E_.eig(A, A.shape[0], "LM", alg)[0]).real)),
+        "sqrt(Arnoldi)": (lambda: Arnoldi(max_iters=50), gen, lambda A, alg: U_.sqrt(A, alg) @ np.ones(A.shape[0])),
+        "exp(Lanczos)": (lambda: Lanczos(max_iters=50), psd, lambda A, alg: U_.exp(A, alg) @ np.ones(A.shape[0])),
+        "svd(Lanczos)": (lambda: Lanczos(max_iters=50), gen, lambda A, alg: np.asarray(S_.svd(A, A.shape[0], "LM", alg)[1].diag)),
+        "pinv(CG)": (lambda: L_.CG(max_iters=60, tol=1e-12), gen, lambda A, alg: P_.pinv(A, alg) @ np.ones(A.shape[0])),
+        "inv(CG)": (lambda: L_.CG(max_iters=60, tol=1e-12), psd, lambda A, alg: L_.inv(A, alg) @ np.ones(A.shape[0])),
+        "inv(GMRES)": (lambda: L_.GMRES(max_iters=40, tol=1e-12), gen, lambda A, alg: L_.inv(A, alg) @ np.ones(A.shape[0])),
+        "diag(Auto)": (lambda: L_.Auto(tol=0.2, max_iters=3, key=5), lambda M: cola.no_dispatch(gen(M)), lambda A, alg: D_.diag(A, 0, alg)),
+        "logdet(Lanczos)": (lambda: Lanczos(max_iters=50), psd, lambda A, alg: np.asarray(L_.logdet(A, alg, L_.Exact() if hasattr(L_, "Exact") else D_.Exact()))),
+    }
+
+
+def case_alg_object(T, name):
+    """an algorithm object handed to a call is an input: its fields are the same afterwards, and using it first on a small operator and then
+    on a larger one gives the same result as a fresh object (real float code with the vmap / linear_transpose additions; the obligations are
+    identities between bit patterns, there is nothing symbolic to quantify over)"""
+    from cola.backends import np_fns
+    from symx import shim
+    was = shim.MODE.get("symbolic")
+    shim.symbolic(False)
+    saved = (np_fns.vmap, np_fns.linear_transpose)
+    shim.functional_additions(np_fns)
+    try:
+        factory, mk, call = _alg_scenarios()[name]
+        rs = np.random.RandomState(3)
+        small, big = mk(rs.randn(3, 3)), mk(rs.randn(7, 7))
+        alg = factory()
+
+        def snap(a):
+            return {k: (np.array(v, copy=True) if isinstance(v, np.ndarray) else v) for k, v in vars(a).items()}
+
+        def same(d1, d2):
+            return d1.keys() == d2.keys() and all((np.array_equal(d1[k], d2[k]) if isinstance(d1[k], np.ndarray) else d1[k] == d2[k]) for k in d1)
+        before = snap(alg)
+        try:
+            call(small, alg)
+            T.check(f"{name}: the algorithm object's fields are unchanged by the call", same(before, snap(alg)), f"{before} -> {vars(alg)}"[:300])
+            r_reused = np.asarray(call(big, alg))
+            r_fresh = np.asarray(call(big, factory()))
+            T.check(f"{name}: reusing the object on a larger operator == a fresh object", r_reused.shape == r_fresh.shape and bool(np.array_equal(r_reused, r_fresh)),
+                    f"max difference {np.abs(r_reused - r_fresh).max() if r_reused.shape == r_fresh.shape else 'shapes ' + str((r_reused.shape, r_fresh.shape))}")
+            T.check(f"{name}: fields unchanged after the second call", same(before, snap(alg)), f"{before} -> {vars(alg)}"[:300])
+        except Exception as e:
+            T.check(f"{name}:!exception", False, f"{type(e).__name__}: {e}"[:200])
+    finally:
+        np_fns.vmap, np_fns.linear_transpose = saved
+        shim.symbolic(was)
 
 
 # ---- (b) flatten / unflatten -------------------------------------------------------------------
@@ -290,6 +357,8 @@ def cases(tier, seed):
         for i, t in enumerate(triples):
             if (i + seed) % 211 == 0:
                 out.append((f"seq:{'|'.join(t)}", case_sequence, dict(seq=list(t))))
+    for name in ("eig(Arnoldi)", "eig(Lanczos)", "sqrt(Arnoldi)", "exp(Lanczos)", "svd(Lanczos)", "pinv(CG)", "inv(CG)", "inv(GMRES)", "diag(Auto)", "logdet(Lanczos)"):
+        out.append((f"alg:{name}", case_alg_object, dict(name=name), dict(validate=True)))
     # (b)
     trees = [["dense", 2, 3, F8], ["dense", 2, 2, C16], ["tri", 2, 1, F8], ["diag", 3, F8], ["scalar", 2, F8], ["identity", 2, F8], ["tridiag", 3, F8], ["perm", [1, 2, 0], F8],
              ["householder", 2, F8], ["product", ["dense", 2, 3, F8], ["dense", 3, 2, F8]], ["sum", ["dense", 2, 2, F8], ["diag", 2, F8]],
@@ -308,6 +377,6 @@ def cases(tier, seed):
     return out
 
 
-BOUNDS = dict(mutation="50-operation alphabet on a pool of 19 operators and 13 caller-owned arrays; all single operations; every 9th ordered pair (rotated by "
+BOUNDS = dict(mutation="57-operation alphabet on a pool of 19 operators and 13 caller-owned arrays; all single operations; every 9th ordered pair (rotated by "
               "VERIF_SEED; every 2nd in thorough) and a sample of triples in thorough", flatten="26 operator trees (every kind); leaf substitution for every float "
               "leaf", registry="6 instantiation histories x 9 operators in a registry reset to the fresh-interpreter state", values="all payloads symbolic")
